@@ -11,3 +11,8 @@ import Skv.Props.C17
 #print axioms C17_lock_progress
 #print axioms C17_ops_disciplined
 #print axioms C17_old_reader_order_deadlocks
+
+#print axioms C17_no_lost_wakeup
+#print axioms C17_signal_releases
+#print axioms C17_released_committer_returns
+#print axioms C17_late_registration_loses_wakeup
